@@ -263,10 +263,29 @@ class C20(Prop):
             if c["gen_out_exists"]:
                 open(outp, "w").write("x = 1\n")
                 before = projgen.snapshot(root)
-                dec = self._run_main(
-                    ["gen", "--name-tpl", "{name}Config", "--input-mapping", "doctrans.tests.mocks.classes.class_ast", "--type", "class", "-o", outp]
-                )
-                obs["gen"] = {"decision": "refuse" if dec == "internal-error:OSError" else dec, "untouched": before == projgen.snapshot(root)}
+                # the existing file named absolutely, and through an unexpanded ~ (HOME = the scratch directory)
+                spelled = outp if c["seed"] % 2 == 0 else "~/out.py"
+                old_home = os.environ.get("HOME")
+                os.environ["HOME"] = root
+                import sys
+
+                modname = "c20genmod_%d_%d" % (os.getpid(), c["seed"])
+                with open(os.path.join(root, modname + ".py"), "w") as fh:
+                    fh.write('class A(object):\n    """\n    The A.\n\n    :param size: the size.\n    """\n\n    def __init__(self, size=5):\n        pass\n\n\nMAPPING = {"A": A}\n')
+                before = projgen.snapshot(root)
+                sys.path.insert(0, root)
+                try:
+                    dec = self._run_main(
+                        ["gen", "--name-tpl", "{name}Config", "--input-mapping", modname + ".MAPPING", "--type", "class", "-o", spelled]
+                    )
+                finally:
+                    sys.path.remove(root)
+                    sys.modules.pop(modname, None)
+                    if old_home is None:
+                        os.environ.pop("HOME", None)
+                    else:
+                        os.environ["HOME"] = old_home
+                obs["gen"] = {"decision": "refuse" if dec == "internal-error:OSError" else dec, "untouched": before == projgen.snapshot(root), "spelled": spelled}
             else:
                 obs["gen"] = {"decision": "accept", "untouched": True}
         finally:
@@ -354,8 +373,8 @@ class C20(Prop):
             res.append(
                 (
                     "cli",
-                    {"op": "cli_other", "input_exists": True, "output_exists": c["gen_out_exists"], "_want": "gen"},
-                    {"ok": obs["gen"]["decision"]},
+                    {"op": "cli_other", "input_exists": True, "output_exists": c["gen_out_exists"] and obs["gen"].get("spelled", "/").startswith("/"), "_want": "gen"},
+                    {"ok": obs["gen"]["decision"] if obs["gen"].get("spelled", "/").startswith("/") else "accept"},
                 )
             )
             return res
@@ -430,8 +449,8 @@ class C20(Prop):
             if sp["decision"].startswith("internal-error"):
                 fails.append({"what": "sync_properties ended in an internal error", "decision": sp["decision"]})
             g = obs["gen"]
-            if c["gen_out_exists"] and (g["decision"] != "refuse" or not g["untouched"]):
-                fails.append({"what": "gen touched or did not refuse an existing output file", "decision": g["decision"]})
+            if c["gen_out_exists"] and (not g["untouched"] or g["decision"] == "accept" or (g["decision"] != "refuse" and g.get("spelled", "").startswith("/"))):
+                fails.append({"what": "gen touched or did not refuse an existing output file", "decision": g["decision"], "spelled": g.get("spelled")})
             return fails
         oc = obs["outcome"]
         run.count("fault:base:" + oc[0])
